@@ -134,11 +134,15 @@ inductive Fn1 where
   | copy          -- copy-seq, copy-tree on a flat list, (apply #'list x), (multiple-value-list (values-list x)),
                   -- (mapcar #'identity x), (map 'list #'identity x), (maplist #'car x), (coerce (coerce x 'vector) 'list)
   | dedup         -- (union x nil): the elements of x without repetitions (first occurrence kept)
+  | subst (new old : Val)          -- (substitute new old x): a fresh list (the code shares nsubstitute's loop)
+  | substIf (new : Val) (p : Pred) -- (substitute-if new p x)
   deriving DecidableEq, Repr
 
 def Fn1.app : Fn1 → List Val → List Val
   | .copy, xs => xs
   | .dedup, xs => xs.eraseDups
+  | .subst new old, xs => xs.map (fun x => if x = old then new else x)
+  | .substIf new p, xs => xs.map (fun x => if p.test x then new else x)
 
 /-- the elements of two lists taken alternately, as far as both lists reach -/
 def interleave : List Val → List Val → List Val
